@@ -163,6 +163,7 @@ def run(ch, config, res):
         srv.oauth_challenge_on_fail = ch.srv.flag("oauth_challenge_on_fail", 1, 2)
         srv.digest_final_in_ok = ch.srv.flag("digest_final_in_ok", 1, 2)
         srv.no_with_sasl_code = ch.srv.flag("no_with_sasl_code", 1, 2)
+        srv.login_early_reject = verdict == "reject" and ch.srv.flag("login_early_reject", 1, 2)
     creds_problem = [None]
     current_verdict = [verdict]
 
@@ -293,6 +294,7 @@ def run(ch, config, res):
             if again and verdict != "forced-no":
                 # the first connection is simply lost (no logout); the server's verdict on the second one is its own
                 current_verdict[0] = ["accept", "reject"][v2]
+                srv.login_early_reject = srv.login_early_reject and current_verdict[0] == "reject"
             if again:
                 if use_tls:
                     cfg.sasl_post = al[a2] if al[a2] is not None else False
